@@ -43,6 +43,10 @@ where
     let mut header = [0u8; SNA_HEADER_SIZE];
     asset.read_exact(&mut header)?;
 
+    // Nothing of the previously running program may survive
+    emulator.cpu.reset_execution_state();
+    emulator.controller.unlock_paging();
+
     if header[25] & SNA_INTERRUPT_MODE_MASK > 2 {
         return Err(SnapshotLoadError::InvalidSNAFile.into());
     }
